@@ -10,6 +10,7 @@ import (
 	"io"
 	"net"
 	"runtime"
+	"sort"
 	"sync"
 	"sync/atomic"
 	"time"
@@ -59,7 +60,7 @@ func srvParams(seed uint64, conn, seq int) qParams {
 	}
 	p.raw = (r>>32)%8 == 0 || p.n < 23
 	p.echo = (r>>36)%2 == 0
-	p.delay = int((r >> 40) % 6)
+	p.delay = int((r >> 40) % 8)
 	switch (r >> 44) % 100 {
 	case 0:
 		p.pad = 8000 + int((r>>52)%52000)
@@ -118,7 +119,7 @@ type gate struct {
 	k  int
 }
 
-func (g *gate) wait() {
+func (g *gate) wait(max time.Duration) {
 	g.mu.Lock()
 	ch := g.ch
 	g.n++
@@ -130,7 +131,7 @@ func (g *gate) wait() {
 		return
 	}
 	g.mu.Unlock()
-	t := time.NewTimer(4 * time.Millisecond)
+	t := time.NewTimer(max)
 	select {
 	case <-ch:
 	case <-t.C:
@@ -140,7 +141,7 @@ func (g *gate) wait() {
 
 type srvHandler struct {
 	cfg      srvCfg
-	g        *gate
+	g, big   *gate
 	inflight atomic.Int64
 	maxIn    atomic.Int64
 	handled  atomic.Int64
@@ -218,8 +219,14 @@ func (h *srvHandler) Handle(ctx context.Context, q *dns.Msg, meta server.QueryMe
 		time.Sleep(time.Duration(mix(uint64(seq))%500) * time.Microsecond)
 	case 3:
 		time.Sleep(time.Duration(mix(uint64(seq))%3000) * time.Microsecond)
+	case 4:
+		h.g.wait(4 * time.Millisecond)
+	case 5:
+		h.big.wait(60 * time.Millisecond)
+	case 6:
+		time.Sleep(time.Duration(mix(uint64(seq))%40000) * time.Microsecond)
 	default:
-		h.g.wait()
+		time.Sleep(time.Duration(mix(uint64(seq))%100000) * time.Microsecond)
 	}
 
 	if p.raw {
@@ -248,7 +255,7 @@ type srvBatch struct {
 
 func startServer(cfg srvCfg) (*srvBatch, error) {
 	b := &srvBatch{cfg: cfg}
-	b.h = &srvHandler{cfg: cfg, g: &gate{ch: make(chan struct{}), k: cfg.Burst}}
+	b.h = &srvHandler{cfg: cfg, g: &gate{ch: make(chan struct{}), k: cfg.Burst}, big: &gate{ch: make(chan struct{}), k: cfg.Window / 3}}
 	switch cfg.Proto {
 	case "tcp", "tls":
 		l, err := net.Listen("tcp", "127.0.0.1:0")
@@ -312,25 +319,33 @@ func (b *srvBatch) corrupt(key, what string, extra map[string]any) {
 // frames to write: random splits so that the server's reader sees split
 // headers, split bodies and coalesced frames (each TLS Write is one record).
 func writeChunked(w io.Writer, data []byte, r *xrng) error {
-	for len(data) > 0 {
-		k := len(data)
-		switch r.intn(8) {
-		case 0:
-			k = 1
-		case 1:
-			k = 2
-		case 2:
-			k = 3
-		case 3:
-			k = 1 + r.intn(len(data))
+	// at most four pieces: cuts inside the first length header, right after it,
+	// one byte into the body, or anywhere
+	var cuts []int
+	if r.intn(2) == 0 {
+		for i := r.intn(3) + 1; i > 0; i-- {
+			switch r.intn(5) {
+			case 0:
+				cuts = append(cuts, 1)
+			case 1:
+				cuts = append(cuts, 2)
+			case 2:
+				cuts = append(cuts, 3)
+			default:
+				cuts = append(cuts, 1+r.intn(len(data)))
+			}
 		}
-		if k > len(data) {
-			k = len(data)
+		sort.Ints(cuts)
+	}
+	off := 0
+	for _, c := range append(cuts, len(data)) {
+		if c <= off || c > len(data) {
+			continue
 		}
-		if _, err := w.Write(data[:k]); err != nil {
+		if _, err := w.Write(data[off:c]); err != nil {
 			return err
 		}
-		data = data[k:]
+		off = c
 	}
 	return nil
 }
@@ -561,7 +576,7 @@ func runServerBatch(cfg srvCfg) {
 	if b.h.bad.Load() > 0 {
 		rep.Count("server_queries_misread", b.h.bad.Load())
 	}
-	if rep.WantSample() {
-		rep.Sample(map[string]any{"server_batch": cfg, "replies_verified_intact": b.verified.Load(), "handler_calls": b.h.handled.Load(), "max_handlers_in_flight": b.h.maxIn.Load()})
+	{
+		sampleKind("server-"+cfg.Proto, 1, map[string]any{"server_batch": cfg, "replies_verified_intact": b.verified.Load(), "handler_calls": b.h.handled.Load(), "max_handlers_in_flight": b.h.maxIn.Load()})
 	}
 }
